@@ -43,13 +43,13 @@ func C01(c *Ctx) {
 		{"C01/R1", "node.reconstructThresholdSignature:recover:shares", rts, pkgNode + ".recoverFullSign", 2, `^next\(range\(` + mBatch + `\)\)#2$`, "the shares are those collected under the same message id", "shares of another message"},
 		{"C01/R1", "node.reconstructThresholdSignature:recover:t", rts, pkgNode + ".recoverFullSign", 3, `^signingFSM\.FSMDump\(\)\.Payload\.Threshold$`, "t is the round's threshold", "threshold substituted (t-1, n, len(shares), ...)"},
 		{"C01/R1", "node.reconstructThresholdSignature:recover:n", rts, pkgNode + ".recoverFullSign", 4, `^len\(signingFSM\.FSMDump\(\)\.Payload\.PubKeys\)$`, "n is the number of registered participants", "n substituted"},
-		{"C01/R1", "node.reconstructThresholdSignature:expansion", rts, "fsm/types/requests.TasksToMessages", 0, `^local:signingTasks$`, "messages come from the single expansion of the proposal's tasks", "ad-hoc expansion"},
+		{"C01/R1", "node.reconstructThresholdSignature:expansion", rts, "fsm/types/requests.TasksToMessages", 0, `^json\(payload\.SrcPayload\)$`, "messages come from the single expansion of the proposal's tasks", "ad-hoc expansion"},
 		{"C01/R1", "node.reconstructThresholdSignature:tasks-source", rts, "encoding/json.Unmarshal", 0, `^payload\.SrcPayload$`, "the tasks are the proposal's SrcPayload carried by the FSM response", "tasks taken from elsewhere"},
 		{"C01/R1", "node.reconstructThresholdSignature:share-grouping", rts, "fsm/types.(BatchPartialSignatures).AddPartialSignature", 1, `^next\(range\(payload\.Participants\[i\]\.PartialSigns\)\)#1$`, "shares are grouped by the message id they were submitted under", "grouping key changed"},
 		{"C01/R2", "airgapped.createPartialSign:Sign:share", [3]string{"airgapped", "Machine", "createPartialSign"}, "github.com/corestario/kyber/sign/tbls.Sign", 1, `^am\.loadBLSKeyring\(dkgIdentifier\)#0\.Share$`,
 			"the signing key is the share stored for that round", "share of another round / another key"},
 		{"C01/R2", "airgapped.createPartialSign:Sign:msg", [3]string{"airgapped", "Machine", "createPartialSign"}, "github.com/corestario/kyber/sign/tbls.Sign", 2, `^msg$`, "the bytes signed are the caller's payload", "payload substituted"},
-		{"C01/R2", "airgapped.signing-handler:sign:payload", [3]string{"airgapped", "Machine", "handleStateSigningAwaitPartialSigns"}, "airgapped.(Machine).createPartialSign", 1, `^requests\.TasksToMessages\(local:signingTasks\)#0\[i\]\.Payload$`,
+		{"C01/R2", "airgapped.signing-handler:sign:payload", [3]string{"airgapped", "Machine", "handleStateSigningAwaitPartialSigns"}, "airgapped.(Machine).createPartialSign", 1, `^requests\.TasksToMessages\(json\(json\(o\.Payload\)\.SrcPayload\)\)#0\[i\]\.Payload$`,
 			"each expanded message's payload is signed", "other bytes signed (file name, task payload, ...)"},
 		{"C01/R2", "airgapped.signing-handler:sign:round", [3]string{"airgapped", "Machine", "handleStateSigningAwaitPartialSigns"}, "airgapped.(Machine).createPartialSign", 2, `^o\.DKGIdentifier$`, "the share used is the operation's round's", "round id substituted"},
 		{"C01/R3", "node.broadcastReconstructedSignatures:payload", [3]string{pkgNode, "BaseNodeService", "broadcastReconstructedSignatures"}, "encoding/json.Marshal", 0, `^sigs$`, "the broadcast carries the reconstructed signatures unmodified", "broadcast value differs from the reconstructed one"},
@@ -59,11 +59,11 @@ func C01(c *Ctx) {
 	checkStores(c, []storeSpec{
 		{"C01/R1", "node.reconstructThresholdSignature:Signature", rts, "ReconstructedSignature", "Signature", `^node\.recoverFullSign\(.*\)#0$`, "the stored/broadcast signature is the value tbls.Recover returned", "signature field filled from elsewhere"},
 		{"C01/R1", "node.reconstructThresholdSignature:MessageID", rts, "ReconstructedSignature", "MessageID", `^next\(range\(` + mBatch + `\)\)#1$`, "the signature is filed under the id its shares were grouped by", "id mismatch"},
-		{"C01/R2", "airgapped.signing-handler:PartialSign.MessageID", [3]string{"airgapped", "Machine", "handleStateSigningAwaitPartialSigns"}, "PartialSign", "MessageID", `^requests\.TasksToMessages\(local:signingTasks\)#0\[i\]\.MessageID$`,
+		{"C01/R2", "airgapped.signing-handler:PartialSign.MessageID", [3]string{"airgapped", "Machine", "handleStateSigningAwaitPartialSigns"}, "PartialSign", "MessageID", `^requests\.TasksToMessages\(json\(json\(o\.Payload\)\.SrcPayload\)\)#0\[i\]\.MessageID$`,
 			"each partial signature is labelled with the id of the message whose payload was signed", "label taken from another element"},
-		{"C01/R2", "airgapped.signing-handler:PartialSign.Sign", [3]string{"airgapped", "Machine", "handleStateSigningAwaitPartialSigns"}, "PartialSign", "Sign", `^am\.createPartialSign\(requests\.TasksToMessages\(local:signingTasks\)#0\[i\]\.Payload, o\.DKGIdentifier\)#0$`,
+		{"C01/R2", "airgapped.signing-handler:PartialSign.Sign", [3]string{"airgapped", "Machine", "handleStateSigningAwaitPartialSigns"}, "PartialSign", "Sign", `^am\.createPartialSign\(requests\.TasksToMessages\(json\(json\(o\.Payload\)\.SrcPayload\)\)#0\[i\]\.Payload, o\.DKGIdentifier\)#0$`,
 			"the partial signature is the one computed for that element", "value mismatch"},
-		{"C01/R4", "airgapped.commits-handler:DKG.Threshold", [3]string{"airgapped", "Machine", "handleStateDkgCommitsAwaitConfirmations"}, "DKG", "Threshold", `^local:payload\[0\]\.Threshold$`, "key generation uses the threshold carried by the operation (the proposal's)", "threshold rewritten on the airgapped side"},
+		{"C01/R4", "airgapped.commits-handler:DKG.Threshold", [3]string{"airgapped", "Machine", "handleStateDkgCommitsAwaitConfirmations"}, "DKG", "Threshold", `^json\(o\.Payload\)\[0\]\.Threshold$`, "key generation uses the threshold carried by the operation (the proposal's)", "threshold rewritten on the airgapped side"},
 	})
 	// messages map is keyed by the message's own id
 	if fn := c.Fn("C01/R1", pkgNode, "", "reconstructThresholdSignature"); fn != nil {
@@ -118,7 +118,7 @@ func C01(c *Ctx) {
 		})
 	}
 	sort.Strings(tw)
-	want := []string{"DKG@handleStateDkgCommitsAwaitConfirmations:=local:payload[0].Threshold", "DumpedMachineStatePayload@actionInitSignatureProposal:=args[0].(requests.SignatureProposalParticipantsListRequest)#0.SigningThreshold"}
+	want := []string{"DKG@handleStateDkgCommitsAwaitConfirmations:=json(o.Payload)[0].Threshold", "DumpedMachineStatePayload@actionInitSignatureProposal:=args[0].(requests.SignatureProposalParticipantsListRequest)#0.SigningThreshold"}
 	okW := len(tw) == 2 && strings.HasPrefix(tw[0], "DKG@handleStateDkgCommitsAwaitConfirmations:=") && strings.HasPrefix(tw[1], "DumpedMachineStatePayload@actionInitSignatureProposal:=") && strings.HasSuffix(tw[1], ".SigningThreshold")
 	_ = want
 	r.Check(okW, "C01/R4", "threshold:writers", "the round threshold is written once on each side, from the proposal", "", "writers: "+strings.Join(tw, " ; "))
